@@ -171,7 +171,15 @@ struct WorldGen {
     if (prof.oom_group && P(15)) c.oom_group = 1;
     if (P(70)) c.pids_current = (int64_t)c.pids.size();
     if (prof.prefs) {
-      int k = W({70, 10, 10, 4, 4, 2});
+      int k = W({64, 10, 10, 4, 4, 2, 3, 3});
+      if (k == 6) {
+        c.xattrs["user.oomd_prefer"] = "1";
+        c.xattrs["trusted.oomd_avoid"] = "1";
+      }
+      if (k == 7) {
+        c.xattrs["trusted.oomd_prefer"] = "1";
+        c.xattrs["user.oomd_avoid"] = "1";
+      }
       if (k == 1) c.xattrs["trusted.oomd_prefer"] = "1";
       if (k == 2) c.xattrs["trusted.oomd_avoid"] = "1";
       if (k == 3) c.xattrs["user.oomd_prefer"] = "1";
